@@ -1139,7 +1139,7 @@ func callBuiltin(caller *frame, callpos token.Pos, fn *ssa.Builtin, args []value
 		return &caller.defers
 	}
 
-	panic("unknown built-in: " + fn.Name())
+	panic(abort{AbortUnsupported, "unknown built-in: " + fn.Name() + " at " + targetStack(caller)})
 }
 
 func rangeIter(x value, t types.Type) iter {
